@@ -17,6 +17,7 @@ spec, never the library's own view of the container.
 Values are compared cell by cell (type class strict, int->float of equal value tolerated, any of NaN/None/NaT
 accepted where the reference says "missing"); dtypes are not demanded."""
 from __future__ import annotations
+import datetime
 import itertools
 import numpy as np
 from .common import Report, layouts_dtype_safe, frame_from, _cell
@@ -663,6 +664,63 @@ def family_shared_axis(tier):
                     for union in (True, False):
                         c += 1
                         yield specs, ('frame_concat_items', axis, union, 'unique', ('nan', 'str', 'none', 'zero')[c % 4], c % 2 == 0, c % 5 == 1)
+
+
+def _same_labels(got, want):
+    """label by label the same value (a date given per year may come back as the first day of that year: the same instant; a day cut to its year is another label)"""
+    if len(got) != len(want):
+        return False
+    for g, w in zip(got, want):
+        try:
+            if not bool(g == w):
+                return False
+        except Exception:
+            return False
+        if isinstance(w, np.datetime64) != isinstance(g, np.datetime64) and not isinstance(g, (datetime.date,)):
+            return False
+    return True
+
+
+def run_index_classes(repo, task):
+    """concatenation of inputs whose labels on the concatenated axis are held by DIFFERENT index classes (date indices of different resolution, plain indices) and
+    carry the same or different index names: the result lists every input label unchanged (a label is never re-interpreted in another input's resolution)"""
+    import static_frame as sf
+    rep = Report('C11-index-classes', task, rule='every ordered pair / triple of {IndexYear, IndexYearMonth, IndexDate, Index[str], Index[int]} x index names same / different '
+                 'x Series.from_concat, Frame.from_concat axis 0 and 1: labels of the result = labels of the inputs in order', bound='<= 3 inputs, 2 labels each')
+    mk = {
+        'year': lambda k, n: sf.IndexYear([f'{2010 + 2 * k}', f'{2011 + 2 * k}'], name=n),
+        'month': lambda k, n: sf.IndexYearMonth([f'{2030 + k}-01', f'{2030 + k}-07'], name=n),
+        'date': lambda k, n: sf.IndexDate([f'{2040 + k}-05-03', f'{2040 + k}-11-30'], name=n),
+        'str': lambda k, n: sf.Index([f's{k}a', f's{k}b'], name=n),
+        'int': lambda k, n: sf.Index([100 * (k + 1), 100 * (k + 1) + 1], name=n),
+    }
+    combos = [c for r in (2, 3) for c in itertools.product(mk, repeat=r)]
+    for combo in rep.shard(combos):
+        for names in ('same', 'different', 'none'):
+            idxs = [mk[c](k, {'same': 'nm', 'different': f'nm{k}', 'none': None}[names]) for k, c in enumerate(combo)]
+            want = [l for ix in idxs for l in ix.values]
+            for route in ('series', 'frame0', 'frame1'):
+                rp = dict(combo=list(combo), names=names, route=route)
+                rep.count(distinct_key=(combo, names, route), sample=rp)
+                try:
+                    if route == 'series':
+                        r = sf.Series.from_concat([sf.Series([10 * k, 10 * k + 1], index=ix) for k, ix in enumerate(idxs)])
+                        got = list(r.index.values)
+                    elif route == 'frame0':
+                        r = sf.Frame.from_concat([sf.Frame.from_dict(dict(a=[k, k + 1]), index=ix) for k, ix in enumerate(idxs)], axis=0)
+                        got = list(r.index.values)
+                    else:
+                        r = sf.Frame.from_concat([sf.Frame(np.array([[k, k + 1]]), index=('r',), columns=ix) for k, ix in enumerate(idxs)], axis=1)
+                        got = list(r.columns.values)
+                except Exception as e:
+                    rep.fail(f'C11:index-classes:{route}:raises-{type(e).__name__}', f'{route} concat of index classes {combo} (names {names}) raises {e!r}', rp)
+                    continue
+                rep.check(_same_labels(got, want), f'C11:index-classes:{route}:labels-changed', f'{route} concat of index classes {combo} (names {names}): labels {[str(x) for x in got]}, inputs hold {[str(x) for x in want]}', rp)
+    return rep.done()
+
+
+def replay_index_classes(repo, rp):
+    return dict(outcome='error', detail='re-run the task')
 
 
 def cases(tier):
